@@ -102,7 +102,8 @@ theorem C08_parked_receive_gets_datagram (c : NetCfg) (hc : c.WF) (ls : List NLb
     (hu : ((NS.init c).run ls).n.udp? name = some u) (hr : u.recvH = some op) (hs : p.size ≤ 262144) :
     (u.incoming p).2 =
       [.post { h := op.h, ec := .ok,
-               extra := recvExtra op.withEp (p.payload.take (op.caps.foldl (· + ·) 0)) p.src }]
+               extra := recvExtra op.withEp (p.payload.take (op.caps.foldl (· + ·) 0)) p.src,
+                    data := p.payload.take (op.caps.foldl (· + ·) 0), src := p.src }]
     ∧ (u.incoming p).1.queue = [] ∧ (u.incoming p).1.queueSize = u.queueSize
     ∧ (u.incoming p).1.recvH = none ∧ (u.incoming p).1.waitRecvH = none := by
   have hd := (DInv.run c hc ls).dok hu
@@ -240,7 +241,8 @@ theorem C08_payload_async (u : UdpSock) (op : RecvOp) :
       u.asyncReceive op =
         ({ u with queue := rest, queueSize := u.queueSize - p.payload.length, recvH := none, recvNull := false },
          [.post { h := op.h, ec := .ok,
-                  extra := recvExtra op.withEp (p.payload.take (op.caps.foldl (· + ·) 0)) p.src }]))
+                  extra := recvExtra op.withEp (p.payload.take (op.caps.foldl (· + ·) 0)) p.src,
+                    data := p.payload.take (op.caps.foldl (· + ·) 0), src := p.src }]))
     ∧ (u.isOpen = true → u.bound.isDefault = false → u.queue = [] →
         u.asyncReceive op = ({ u with recvH := some op, recvNull := false }, []))
     ∧ (u.isOpen = false →
